@@ -240,6 +240,7 @@ Proof.
   destruct (find_dim name (xdims a)) as [k|] eqn:Ek; [|discriminate].
   destruct (negb _); [discriminate|].
   destruct (index_of c _) as [p|] eqn:Ep; [|discriminate].
+  destruct (existsb _ _); [discriminate|].
   inversion H; subst r. exists k, p. repeat split; assumption.
 Qed.
 
